@@ -96,10 +96,14 @@ impl TraitFnAnalyzer<'_> {
                     syn::GenericParam::Type(type_param) if Some(&type_param.ident) == deps_param => {
                         Some(quote::quote! { _ })
                     }
-                    syn::GenericParam::Type(syn::TypeParam { ident, .. })
-                    | syn::GenericParam::Const(syn::ConstParam { ident, .. }) => {
+                    syn::GenericParam::Type(syn::TypeParam { ident, .. }) => {
                         any_explicit = true;
                         Some(quote::quote! { #ident })
+                    }
+                    // (in braces: a bare `N` would be read as a type of that name, should the scope have one)
+                    syn::GenericParam::Const(syn::ConstParam { ident, .. }) => {
+                        any_explicit = true;
+                        Some(quote::quote! { { #ident } })
                     }
                     syn::GenericParam::Lifetime(_) => None,
                 })
